@@ -227,54 +227,54 @@ def r2_dispatch(ctx, sym, table):
         ('miss-right', mk('L'), mk('X'), 'OP', 'IMPOSSIBLE'),
         ('swapped', mk('R'), mk('L'), 'OP', 'IMPOSSIBLE'),
     ]
-    params = [a.arg for a in fn.args.args]
+    from ..fdeval import module_resolver
     for name, l, r, op, want in scenarios:
         fd = FD(calls={'isinstance': b_isinstance,
                        'type': lambda o: o.attrs['cls'] if isinstance(o, Obj) else o,
                        'ImpossibleType': lambda: 'IMPOSSIBLE',
                        'AnyType': lambda: mk('AnyType')},
-                methods={'promote': m_promote})
-        env = {params[0]: Obj('op', cls=op), params[1]: l, params[2]: r, 'VALID_BINOP_TYPES': tbl,
-               'AnyType': 'AnyType', 'LiteralValue': 'LiteralValue'}
+                methods={'promote': m_promote},
+                resolver=module_resolver(sym, mod, extra={'VALID_BINOP_TYPES': tbl, 'AnyType': 'AnyType',
+                                                          'LiteralValue': 'LiteralValue'}))
         try:
-            got = fd.run(fn.body, env)
+            got = fd.call_function(fn, [Obj('op', cls=op), l, r])
         except Inconclusive as e:
             raise AnalysisError("C19 R2: apply_binary_operation outside the decidable fragment: %s" % e)
+        except Raised as e:
+            got = 'raises %s' % e.kind
         expect = want(l, r) if callable(want) else want
         same = (got is expect) if isinstance(expect, Obj) else (got == expect)
         ctx.check(same, 'R2', 'apply_binary_operation:' + name, mod, fn,
                   "scenario %s returns %r, expected %r" % (name, got, expect),
                   "a binary operation whose operand classes %s" % name, construct='apply_binary_operation')
-    # visit_BinOp
+    # visit_BinOp executed abstractly with marker operands
+    from .. import symexec
     vmod = ctx.repo.module(VISITOR)
     vb = vmod.func('Tifa.visit_BinOp')
     ctx.analysed_function(vmod, vb)
-    defs = {}
-    for n in body_walk(vb):
-        if isinstance(n, ast.Assign) and isinstance(n.targets[0], ast.Name):
-            defs[n.targets[0].id] = n.value
-    issue_ifs = [n for n in body_walk(vb) if isinstance(n, ast.If)
-                 and any(True for _ in calls(n, 'incompatible_types'))]
-    ok = False
-    if len(issue_ifs) == 1:
-        t = issue_ifs[0].test
-        if isinstance(t, ast.Call) and call_name(t) == 'isinstance' and norm(t.args[1]) == 'ImpossibleType' \
-                and isinstance(t.args[0], ast.Name):
-            src = defs.get(t.args[0].id)
-            if isinstance(src, ast.Call) and call_name(src) == 'apply_binary_operation':
-                a = [defs.get(x.id, x) if isinstance(x, ast.Name) else x for x in src.args]
-                if [norm(x) for x in a] == ['node.op', 'self.visit(node.left)', 'self.visit(node.right)']:
-                    ok = not issue_ifs[0].orelse
-    all_issue = [c for c in calls(vb, 'incompatible_types')]
-    ctx.check(ok and len(all_issue) == 1, 'R2', 'visit_BinOp:issue', vmod, vb,
-              "incompatible_types is not issued exactly when apply_binary_operation(node.op, visit(left), "
-              "visit(right)) is an ImpossibleType",
-              "x = 'a' + 1", construct='visit_BinOp')
-    rets = [n for n in body_walk(vb) if isinstance(n, ast.Return)]
-    ctx.check(len(rets) == 1 and isinstance(rets[0].value, ast.Name)
-              and call_name(defs.get(rets[0].value.id)) == 'apply_binary_operation',
-              'R2', 'visit_BinOp:returns', vmod, vb, "visit_BinOp does not return the table's result type",
-              "z = x + y", construct='return')
+    for impossible in (False, True):
+        rec = symexec.Recorder()
+        lt, rt, opn = symexec.marker('left-type'), symexec.marker('right-type'), symexec.marker('op')
+        result = Obj('ImpossibleType' if impossible else 'result-type')
+        node = Obj('BinOp', left=Obj('expr', tag='L'), right=Obj('expr', tag='R'), op=opn)
+        me = symexec.self_obj(vmod, 'Tifa', report=Obj('report'))
+        symexec.method(me, 'visit', lambda x: {'L': lt, 'R': rt}[x.attrs['tag']])
+        symexec.method(me, 'locate', lambda *a: 'here')
+        symexec.method(me, '_issue', rec.stub('_issue'))
+        fd = symexec.new_fd(sym, vmod, calls={
+            'apply_binary_operation': rec.stub('apply_binary_operation', ret=result),
+            'isinstance': lambda o, t: isinstance(o, Obj) and o._name == t,
+            'incompatible_types': rec.stub('incompatible_types', ret=Obj('feedback'))},
+            extra={'ImpossibleType': 'ImpossibleType'})
+        got, raised = symexec.run(fd, vb, [node], bound_self=me, what='Tifa.visit_BinOp')
+        ap = rec.named('apply_binary_operation')
+        ok = raised is None and len(ap) == 1 and ap[0][1][0] is opn and ap[0][1][1] is lt and ap[0][1][2] is rt and \
+            len(rec.named('_issue')) == (1 if impossible else 0) and got is result
+        ctx.check(ok, 'R2', 'visit_BinOp:issue[%s]' % ('impossible' if impossible else 'typed'), vmod, vb,
+                  "visit_BinOp does not apply the table to (node.op, visit(left), visit(right)), issue "
+                  "incompatible_types exactly when the result is an ImpossibleType, and return the result "
+                  "(%d issue(s), %d table call(s))" % (len(rec.named('_issue')), len(ap)),
+                  "x = 'a' + 1", construct='visit_BinOp')
 
 
 def class_table_value(sym, ci, attr):
